@@ -639,6 +639,9 @@ vh::Register r16t("C16t", s16t(false), s16t(true), run_c16t,
 vh::Register r20c("C20dd", s16(true, false, true), s16(true, true, true), [](const vh::Case& c) { return d16(c, true); },
                   "as C16 with a throwing pre-destruction callback (k-th invocation throws): destroyObjects must swallow it, destroy every selected object exactly once and leave the container usable");
 
+vh::Register r20cs("C20dds", s16(false, false, true), s16(false, true, true), [](const vh::Case& c) { return d16(c, false); },
+                   "as C16s (sequential, both classes, including DelayedDestructorSingleThread) with a throwing pre-destruction callback: the exception is swallowed, no callback runs twice, "
+                   "later sweeps and the destructor still release everything exactly once");
 vh::GenSpec s17(bool conc, bool th, bool faults = false) {
     vh::GenSpec g; g.sequential = !conc; g.nfibers = conc ? 3 : 1; g.max_ops = conc ? (th ? 5 : 4) : (th ? 24 : 14); g.ncodes = S_NK; g.amax = 16; g.bmax = 40;
     g.sched_len = 96; g.aux_len = 8;
